@@ -43,8 +43,10 @@ pub fn f_mci(c: bool, n: usize) -> Vec<u8> {
     for i in 0..(28 * n) { v.push((i % 13) as u8); }
     v
 }
-pub fn f_ver(c: bool, insimver: u8) -> Vec<u8> {
-    let mut v = vec![sz(c, 20), 2, 1, 0];
+pub fn f_ver(c: bool, insimver: u8) -> Vec<u8> { f_ver_r(c, insimver, 1) }
+/// ... with any request id (0 = unsolicited, n = the answer to somebody's request)
+pub fn f_ver_r(c: bool, insimver: u8, reqi: u8) -> Vec<u8> {
+    let mut v = vec![sz(c, 20), 2, reqi, 0];
     v.extend_from_slice(b"0.7F\0\0\0\0");
     v.extend_from_slice(b"S3\0\0\0\0");
     v.push(insimver);
@@ -205,6 +207,15 @@ pub fn c05(tier: Tier, replay: Option<String>) -> i32 {
     use super::longsession as ls;
     if let Some(path) = &replay {
         if let Ok(v) = std::fs::read_to_string(path).map_err(|e| e.to_string()).and_then(|s| serde_json::from_str::<serde_json::Value>(&s).map_err(|e| e.to_string())) {
+            if v["site"] == "builder-tcp" {
+                let case = ls::TcpCase { tokio: v["tokio"].as_bool().unwrap_or(false), compressed: v["compressed"].as_bool().unwrap_or(true), nodelay: v["nodelay"].as_bool().unwrap_or(true), chunk: v["chunk"].as_u64().unwrap_or(0) as usize };
+                return match crate::report::guard(|| ls::run_tcp(&case)) {
+                    Ok(Ok(())) => { println!("replay: {} - held", case.label()); 0 },
+                    Ok(Err(e)) if e.starts_with("harness") => { eprintln!("MACHINERY: {e}"); 4 },
+                    Ok(Err(e)) => { println!("VIOLATION property=C05 replay={path}\n  witness: {}: {e}", case.label()); 1 },
+                    Err(p) => { println!("VIOLATION property=C05 replay={path}\n  witness: {}: panicked: {p}", case.label()); 1 },
+                };
+            }
             if v["site"] == "long-session" {
                 let case = ls::Case { tokio: v["tokio"].as_bool().unwrap_or(false), compressed: v["compressed"].as_bool().unwrap_or(true), cap: v["cap"].as_u64().unwrap_or(0) as usize, min_bytes: v["min_bytes"].as_u64().unwrap_or(0) };
                 return match crate::report::guard(|| ls::run(&case)) {
@@ -231,7 +242,35 @@ pub fn c05(tier: Tier, replay: Option<String>) -> i32 {
         }
         eprintln!("C05 long-session: {} connections, {} frames, {:.1}s", cases.len(), long_frames, long.elapsed().as_secs_f64());
     }
+    // connections made by the public Builder over loopback TCP (each on its own thread, given up on after 12 s:
+    // a blocking connection made by the builder waits 90 s for bytes that never come)
+    let tcp = ls::tcp_cases();
+    if replay.is_none() {
+        let results: Vec<Option<Result<Result<(), String>, String>>> = tcp.par_iter().map(|c| {
+            let (tx, rx) = std::sync::mpsc::channel();
+            let c2 = ls::TcpCase { tokio: c.tokio, compressed: c.compressed, nodelay: c.nodelay, chunk: c.chunk };
+            let _ = std::thread::spawn(move || { let _ = tx.send(crate::report::guard(|| ls::run_tcp(&c2))); });
+            rx.recv_timeout(std::time::Duration::from_secs(12)).ok()
+        }).collect();
+        for (c, r) in tcp.iter().zip(results) {
+            let what = match r {
+                Some(Ok(Ok(()))) => continue,
+                Some(Ok(Err(e))) if e.starts_with("harness") => { eprintln!("MACHINERY: {}: {e}", c.label()); return 4; },
+                Some(Ok(Err(e))) => e,
+                Some(Err(p)) => format!("panicked: {p}"),
+                None => "the session did not finish within 12 s".to_string(),
+            };
+            let path = format!("/verif/replays/C05/{}.json", c.label().replace('#', "-"));
+            println!("VIOLATION property=C05 replay={path}");
+            println!("  signature: C05|builder-tcp|{}", if c.tokio { "tokio" } else { "blocking" });
+            println!("  witness:   {}: {what}", c.label());
+            let _ = std::fs::create_dir_all("/verif/replays/C05");
+            let _ = std::fs::write(&path, json!({"property": "C05", "site": "builder-tcp", "tokio": c.tokio, "compressed": c.compressed, "nodelay": c.nodelay, "chunk": c.chunk}).to_string());
+            return 1;
+        }
+    }
     let labels: Vec<String> = cases.iter().map(|c| c.label()).collect();
+    let tcp_labels = tcp.len();
     finish_with("C05", tier, replay, c05_instances(tier),
         "instances = (mode, implementation, inbound frame sequence): all sequences of length <= 3 (quick) / <= 4 (thorough) over {keep-alive, TINY_PING, SMALL, unknown type, undecodable CIM, MSO, SMALL announced as 4 bytes, MSO without terminator (+ MCI claiming more cars than it holds, 252 B and 1020 B frames)} with EVERY partition of the byte stream into reads (state-merged), <= 1 (2) injected transient errors of 4 kinds, EOF at any point; plus sessions of 9-16 kB (> the 6120-byte buffer) with boundary-relative chunk choices; states merged on (receive buffer bytes, spare capacity, stream position, budgets, suspended side)",
         vec![
@@ -239,8 +278,9 @@ pub fn c05(tier: Tier, replay: Option<String>) -> i32 {
             "blocking and tokio instances are compared with the same reference read loop, hence with each other".into(),
             "long sessions use the chunk set {1, to-boundary-1, to-boundary, to-boundary+1, boundary+next frame, everything} instead of every k".into(),
             "the long-session connections (one execution each, run before the search; a failure there is reported at once) push the session length, not the schedule: whole-frame repeating stream, reads as large as asked or 7 bytes".into(),
+            "builder-tcp: 40 sessions over real loopback TCP through connections made by the public Builder (blocking / tokio x mode x nodelay x peer writing everything at once / 1 / 3 / 1021 / 4096 bytes at a time); the kernel cuts the reads, so these add the way the connection was made, not schedules".into(),
         ],
-        vec![("long_session_connections", json!(labels)), ("long_session_frames", json!(long_frames))])
+        vec![("long_session_connections", json!(labels)), ("long_session_frames", json!(long_frames)), ("builder_tcp_connections", json!(tcp_labels))])
 }
 
 // ---------------------------------------------------------------------------------------------
@@ -498,7 +538,7 @@ pub fn c07(tier: Tier, replay: Option<String>) -> i32 {
 
 // ---------------------------------------------------------------------------------------------
 
-pub fn c09_instances(_tier: Tier) -> Vec<Instance> {
+pub fn c09_instances(tier: Tier) -> Vec<Instance> {
     let mut out = vec![];
     let kinds = spec::load();
     for c in [true, false] {
@@ -561,6 +601,27 @@ pub fn c09_instances(_tier: Tier) -> Vec<Instance> {
                         i.chunks = Chunks::WholeOrBytes;
                         i.allow_eof = false;
                         out.push(i);
+                    }
+                }
+            }
+            // nor on the request id the VER carries (0 = unsolicited, the handshake's own, somebody else's), whatever the
+            // request id of the ISI this side sent, if any
+            {
+                let reqis: Vec<u8> = if tier == Tier::Thorough { (0..=255).collect() } else { vec![0, 1, 2, 3, 7, 127, 128, 254, 255] };
+                let mut hs: Vec<(String, Option<insim::insim::Isi>)> = vec![("no-handshake".into(), None)];
+                for r in [0u8, 1, 7, 255] { hs.push((format!("isi-reqi-{r}"), Some(insim::insim::Isi { reqi: RequestId(r), iname: "verif".into(), ..Default::default() }))); }
+                for (hname, h) in &hs {
+                    for reqi in &reqis {
+                        for v in [8u8, 9, 10] {
+                            for verify in [true, false] {
+                                let mut i = Instance::new(&format!("ver-reqi#{cname}#{hname}-ver-reqi-{reqi}-v{v}-verify-{verify}#{}", imp_name(imp)), imp, c, vec![f_ver_r(c, v, *reqi), f_small(c)]);
+                                i.verify_version = verify;
+                                i.handshake = h.clone();
+                                i.chunks = Chunks::Boundary;
+                                i.allow_eof = false;
+                                out.push(i);
+                            }
+                        }
                     }
                 }
             }
